@@ -14,6 +14,8 @@
 //   <cid> X <k> v_0 .. v_{n-1}                    iterate after k cycles (k = 0: initial guess)
 //   <cid> B <k> v_0 .. v_{n-1}                    right-hand side object after k cycles (must not change)
 //   <cid> HA <l> csr...   /  <cid> HP <l> csr...  hierarchy (dump = 1)
+//   <cid> SOLVE <iter> r_0 .. r_iter              solve() from the same initial guess, at most 30 iterations: raptor's own
+//                                                 relative residual history;   <cid> XF v...  its final iterate
 #include "common_par.hpp"
 
 static coarsen_t coarsen_of(const std::string& s) {
@@ -97,6 +99,14 @@ static void run_case(const std::string& cid, Toks& t) {
             printf("%s X %d %s\n", id, k, nums_str(x.data(), nr).c_str());
             printf("%s B %d %s\n", id, k, nums_str(b.data(), nr).c_str());
         }
+        {   // the solve loop on the same system (residual history without blow-up)
+            Vector xs2(nr), bs2(nr);
+            for (int i = 0; i < nr; i++) { xs2[i] = x0[i]; bs2[i] = bv[i]; }
+            int it = ml->solve(xs2, bs2, 30);
+            std::vector<double>& rs = ml->get_residuals();
+            printf("%s SOLVE %d %s\n", id, it, nums_str(rs.data(), std::min((int)rs.size(), it + 1)).c_str());
+            printf("%s XF %s\n", id, nums_str(xs2.data(), nr).c_str());
+        }
         delete ml; delete A;
     } else if (cls == "par_rs" || cls == "par_sa") {
         ParCOOMatrix* Ac = new ParCOOMatrix(nr, nc);
@@ -133,6 +143,15 @@ static void run_case(const std::string& cid, Toks& t) {
             ml->cycle(x, b, 0);
             printf("%s X %d %s\n", id, k, nums_str(x.local.data(), nr).c_str());
             printf("%s B %d %s\n", id, k, nums_str(b.local.data(), nr).c_str());
+        }
+        {
+            ParVector xs2(nr, A->local_num_rows), bs2(nr, A->local_num_rows);
+            for (int i = 0; i < nr; i++) { xs2.local[i] = x0[i]; bs2.local[i] = bv[i]; }
+            ml->max_iterations = 30;
+            int it = ml->solve(xs2, bs2);
+            std::vector<double>& rs = ml->get_residuals();
+            printf("%s SOLVE %d %s\n", id, it, nums_str(rs.data(), std::min((int)rs.size(), it + 1)).c_str());
+            printf("%s XF %s\n", id, nums_str(xs2.local.data(), nr).c_str());
         }
         delete ml; delete A;
     } else throw std::runtime_error("class " + cls);
